@@ -619,5 +619,50 @@ def describe(case, out):
             "ntaxa": len(case["hap0"]), "nloci": len(case["pos"]), "nchr": len(case["sizes"]), "ntrait": len(case["u"][0]), "posmode": case["posmode"],
             "raised": out.get("raised", out.get("exc", "no"))}
 
+def _q(x): return E.q(Fraction(x))
+def _bounds(case):
+    b, s0 = [], 0
+    for s in case["sizes"]:
+        b.append((s0, s0 + s)); s0 += s
+    return b
+
+def _setup_expr(case, out):
+    p = len(case["pos"])
+    U = E.lst2([[Fraction(v, 4) for v in r] for r in case["u"]], E.q)
+    chroms = E.lst(_bounds(case), lambda c: E.pair(E.nat(c[0]), E.nat(c[1])))
+    mem = E.opt(case["mem"], E.nat)
+    nself = "None" if case["nself"] == "inf" else "(Some %s)" % E.nat(case["nself"])
+    if case["posmode"] == "ln2": R = "(R_ln2 %s %s)" % (E.nat(p), E.lst(case["pos"], E.z))
+    else: R = E.lst2(out.get("R", []), _q)
+    return p, U, chroms, mem, nself, R
+
+def _nest(x, f):
+    return f(x) if not isinstance(x, list) else "[" + "; ".join(_nest(v, f) for v in x) + "]"
+
 def emit_case(case, out):
-    return None
+    if "exc" in out: return "false"
+    scheme, kind = case["scheme"], case["kind"]
+    n = len(case["hap0"]); t = len(case["u"][0])
+    G0 = E.lst2(case["hap0"], E.z); G1 = E.lst2(case["hap1"], E.z)
+    if case["mem"] is not None and case["mem"] >= 5000: case = dict(case, mem=4999)      # nat literal limit; any step > chromosome size is one chunk
+    p, U, chroms, mem, nself, R = _setup_expr(case, out)
+    if kind in ("var", "cov") and (scheme, kind) in KNOWN_RAISES:
+        return "%s && %s" % ({"four": "fourway_cov_raises", "di": "dihybrid_cov_raises"}[scheme], E.b("raised" in out))
+    if kind == "genic" and scheme in ("three", "four"):
+        return "multiway_genic_raises && %s" % E.b("raised" in out)
+    if "raised" in out:
+        return "false" if out["raised"] != "empty-xmap" else None
+    if kind == "genic":
+        impl = _nest(out["mat"], lambda v: "None" if v == "nan" else "(Some %s)" % _q(v))
+        return "oq_lll %s (genic_var %s %s %s %s %s %s)" % (impl, U, E.nat(p), G0, G1, E.nat(n), E.nat(t))
+    head = "(let R := %s in let S := mk_setup %s %s %s %s %s R in r_ok R %s && " % (R, E.nat(p), U, chroms, mem, nself, chroms)
+    if kind == "uc":
+        sc = {"two": 2, "three": 3, "four": 4, "di": 0}[scheme]
+        beta = E.lst([Fraction(b) for b in case["beta"]], E.q)
+        return head + "uc_mat_ok %s (uc_epgc %d) (fun k tr => bv %s %s %s (row %s k) (row %s k) tr) (uc_var %d S %s %s) %s %s %s)" % (
+            _q(out["si"]), sc, U, beta, E.nat(p), G0, G1, sc, G0, G1, E.nat(t), E.lst2(out["xmap"], E.nat), _nest(out["uc"], _q))
+    impl = _nest(out["mat"], _q)
+    fn = {("two", "var"): ("qclose_lll", "twoway_var S %s" % G0), ("two", "cov"): ("qclose_l4", "twoway_cov S %s" % G0),
+          ("three", "var"): ("qclose_l4", "threeway_var S %s" % G0), ("three", "cov"): ("qclose_l5", "threeway_cov S %s" % G0),
+          ("four", "var"): ("qclose_l5", "fourway_var S %s" % G0), ("di", "var"): ("qclose_lll", "dihybrid_var S %s %s" % (G0, G1))}[(scheme, kind)]
+    return head + "%s %s (%s %s %s))" % (fn[0], impl, fn[1], E.nat(n), E.nat(t))
